@@ -225,6 +225,37 @@ def rule_range_edit(ctx, F):
             ctx.bad("W2", "ts_range_edit:%s-point-follows" % end, "the point of the range %s is no longer clamped together with its byte" % end)
 
 
+def rule_geometry(ctx, F):
+    """P3: which of the three reshaping cases applies to a node, and which child receives the
+    inserted text, is decided by position tests only; each store into padding/size and each rewrite
+    of the edit for later children is reachable only under its own case."""
+    fn = ctx.need_fn(F, "ts_subtree_edit", "P3")
+    if not fn:
+        return
+    shift = [pt for pt, n in find(fn, "padding = length_add(edit.new_end, length_sub(padding, edit.old_end))")]
+    shrink_p = [pt for pt, n in find(fn, "padding = edit.new_end")]
+    shrink_s = [pt for pt, n in find(fn, "size = length_saturating_sub(size, length_sub(edit.old_end, padding))")]
+    resize = [pt for pt, n in find(fn, "size = length_add(length_sub(edit.new_end, padding), length_saturating_sub(total_size, edit.old_end))")]
+    for nm, pts in (("shift of the padding", shift), ("shrink: new padding", shrink_p), ("shrink: new size", shrink_s), ("resize", resize)):
+        if len(pts) != 1:
+            ctx.bad("P3", "ts_subtree_edit:geometry:%s" % nm, "expected exactly one store for the %s case in ts_subtree_edit, found %d" % (nm, len(pts)))
+            return
+    ctx.gate("P3", fn, shift, [("an edit entirely inside the padding only shifts the node", "edit.old_end.bytes <= padding.bytes", True)], accept_desc="shifting the padding")
+    ctx.gate("P3", fn, shrink_p + shrink_s, [("an edit that starts in the padding and reaches into the node shrinks it", "edit.start.bytes < padding.bytes", True),
+                                            ("…and is not entirely inside the padding", "edit.old_end.bytes <= padding.bytes", False)], accept_desc="shrinking the node")
+    ctx.before("P3", "ts_subtree_edit:shrink-uses-old-padding", fn, shrink_p, shrink_s, "the shrunken size is computed from the old padding before the padding is replaced")
+    ctx.gate("P3", fn, resize, [("an edit inside the node (or an insertion at its end) resizes it", [("edit.start.bytes < total_size.bytes", True), ("edit.start.bytes == total_size.bytes", True)]),
+                                ("…an edit merely touching the end resizes only if it is a pure insertion", [("edit.start.bytes < total_size.bytes", True), ("is_pure_insertion", True)]),
+                                ("…and does not start in the padding", "edit.start.bytes < padding.bytes", False)], accept_desc="resizing the node")
+    first = [pt for pt, n in find(fn, "edit.new_end = edit.start")]
+    later = [pt for pt, n in find(fn, "child_edit.old_end = child_edit.start")] + [pt for pt, n in find(fn, "child_edit.new_end = child_edit.start")]
+    ctx.floor("rewrites of the edit for later children", len(first) + len(later), 3)
+    ctx.gate("P3", fn, first, [("inserted text goes to the first child that reaches past the edit start", [("child_right.bytes > edit.start.bytes", True), ("child_right.bytes == edit.start.bytes", True)]),
+                               ("…a child merely ending at the edit start takes it only for a pure insertion", [("child_right.bytes > edit.start.bytes", True), ("is_pure_insertion", True)])],
+             accept_desc="consuming the inserted text")
+    ctx.gate("P3", fn, later, [("a child lying before the edit start is not reshaped", "child_right.bytes > edit.start.bytes", False)], accept_desc="neutralising the child's edit")
+
+
 def run(ctx):
     for cfg in configs(ctx):
         ctx.config = cfg
@@ -234,6 +265,7 @@ def run(ctx):
         rule_subtree_edit(ctx, F)
         rule_node_edit(ctx, F)
         rule_range_edit(ctx, F)
+        rule_geometry(ctx, F)
     try:
         import rsrules
         rsrules.c10_rust(ctx)
